@@ -6,7 +6,7 @@
 (* distinct members, written with ", " or "," between them), the wrapper    *)
 (* (CompressHandler* = "std": gzip, deflate, zstd;  CompressHandlerBrotli*  *)
 (* = "brotli": br, gzip, deflate, zstd), how the wrapped handler produced   *)
-(* the body (buffered | streamed), the body size class around the 200-byte  *)
+(* the body (which body setter: buffered | streamed), the body size class around the 200-byte  *)
 (* threshold, a compressible or incompressible Content-Type, and whether    *)
 (* the handler already set a Content-Encoding.                              *)
 (*                                                                         *)
@@ -33,8 +33,14 @@ Join(s, sep) == IF Len(s) = 1 THEN s[1] ELSE s[1] \o sep \o Join(Tail(s), sep)
 AEs == {[present |-> FALSE, members |-> <<>>, text |-> ""]}
        \cup { [present |-> TRUE, members |-> s, text |-> Join(s, sep)] : s \in Lists, sep \in {", ", ","} }
 
-Cases == { [ae |-> a, wrapper |-> w, kind |-> k, size |-> n, ctype |-> ct, preset |-> p] :
-             a \in AEs, w \in {"std", "brotli"}, k \in {"buffered", "stream"}, n \in {0, 199, 200, 5000},
+\* how the wrapped handler hands its body to the Response: every body setter of the API; the
+\* last two produce a streamed body, the others a buffered one (SetBodyRaw: without copying)
+Setters == {"SetBody", "SetBodyString", "AppendBody", "SetBodyRaw", "Write", "WriteString",
+            "SetBodyStream", "SetBodyStreamWriter"}
+KindOf(st) == IF st \in {"SetBodyStream", "SetBodyStreamWriter"} THEN "stream" ELSE "buffered"
+
+Cases == { [ae |-> a, wrapper |-> w, setter |-> st, kind |-> KindOf(st), size |-> n, ctype |-> ct, preset |-> p] :
+             a \in AEs, w \in {"std", "brotli"}, st \in Setters, n \in {0, 199, 200, 5000},
              ct \in {"text/plain", "image/png"}, p \in {"", "gzip"} }
 
 Accepted(c) == { c.ae.members[i] : i \in DOMAIN c.ae.members } \cap Codings
@@ -48,19 +54,23 @@ Hint(c) == /\ c.preset = "" /\ c.ctype = "text/plain"
            /\ (c.kind = "stream" \/ c.size >= 200)
            /\ Accepted(c) \cap Supported(c.wrapper) # {}
 
-Vec(c) == [ ae |-> c.ae.text, aePresent |-> c.ae.present, wrapper |-> c.wrapper, kind |-> c.kind, size |-> c.size,
+Vec(c) == [ ae |-> c.ae.text, aePresent |-> c.ae.present, wrapper |-> c.wrapper, setter |-> c.setter, kind |-> c.kind, size |-> c.size,
             ctype |-> c.ctype, preset |-> c.preset, allowed |-> Allowed(c), hint |-> Hint(c) ]
 
 ASSUME ndJsonSerialize("negvectors.ndjson", SetToSeq({ Vec(c) : c \in Cases }))
 
-\* one state per case: the table's own meta-properties are checked on every case
-VARIABLE cs
-Init == cs \in Cases
-Next == UNCHANGED cs
-Spec == Init /\ [][Next]_cs
-TableInv ==
+\* the table's own meta-properties, checked by TLC on every case when the module is loaded
+TableOK(cs) ==
   /\ \A o \in Allowed(cs) : o.enc \notin {"", cs.preset} => (o.enc \in Accepted(cs) /\ o.vary)   \* only accepted codings, with Vary
   /\ \A o \in Allowed(cs) : cs.preset # "" => o.enc = cs.preset                                    \* never twice
   /\ \E o \in Allowed(cs) : o.passthrough                                                          \* identity always possible
   /\ (Hint(cs) => \E o \in Allowed(cs) : ~o.passthrough)
+ASSUME \A c \in Cases : TableOK(c)
+
+\* (the table is a constant: the state space is a single state carrying its size)
+VARIABLE ncases
+Init == ncases = Cardinality(Cases)
+Next == UNCHANGED ncases
+Spec == Init /\ [][Next]_ncases
+TableInv == ncases > 0
 =============================================================================
